@@ -251,3 +251,20 @@ Proof.
   destruct (filter_channels u (rv_chans rv)) as [|c r] eqn:E; [congruence|].
   destruct (ad_keys f); cbn [negb]; reflexivity.
 Qed.
+
+(* ---- surfaces ---- *)
+(* A read surface, abstractly: what it answers for a user, a revision and a request.  It "goes through the
+   decision" when its answer is a function of the decision's outcome alone. *)
+Definition through_decision {R : Type} (respond : bool -> user -> revision -> request -> R) : Prop :=
+  exists present : outcome -> R, forall named u rv q, respond named u rv q = present (decide named u rv q).
+
+Definition surface_noninterferent {R : Type} (respond : bool -> user -> revision -> request -> R) : Prop :=
+  forall named u rv q, can_see_any named u (rv_chans rv) = false ->
+  forall b b' a a', respond named u (with_content rv b a) q = respond named u (with_content rv b' a') q.
+
+Lemma through_decision_noninterferent : forall R (respond : bool -> user -> revision -> request -> R),
+  through_decision respond -> surface_noninterferent respond.
+Proof.
+  intros R respond [present H] named u rv q Hns b b' a a'. rewrite !H.
+  f_equal. apply decide_noninterference. exact Hns.
+Qed.
